@@ -299,6 +299,7 @@ func (r *replayer) runCase(fam string, c *caseRec, docs []interface{}, docsTagge
 		for ai, di := range idxs {
 			doc := docs[di]
 			snap := deepCopy(doc)
+			snapCap := snapshotCap(doc)
 			r.cur.Store(mk("timeout", di, c.Allowed[ai], "no return within watchdog"))
 			o := direct(func() (interface{}, error) { return jp.Search(doc) })
 			atomic.AddInt64(&r.progress, 1)
@@ -340,6 +341,10 @@ func (r *replayer) runCase(fam string, c *caseRec, docs []interface{}, docsTagge
 				if docCanary {
 					r.sum.CanariesIn++
 				}
+			}
+			if reflect.DeepEqual(snap, doc) && !docCanary && !reflect.DeepEqual(snapCap, snapshotCap(doc)) {
+				r.add(mk("docmod", di, allowed, "the call wrote into the spare capacity of an array of the document (beyond its length)"))
+				docs[di] = snap
 			}
 			if !reflect.DeepEqual(snap, doc) {
 				v := mk("docmod", di, allowed, "document after call: "+mustJSON(doc))
